@@ -27,8 +27,9 @@ def action_ret(a):
     return RET["allow"] if b == 1 else RET["errno"] if b == 2 else RET["trace"] if b == 3 else RET["kill"]
 
 
-def bpf_run(f, arch, nr):
-    """independent interpreter of the exported quadruples"""
+def bpf_run(f, arch, nr, words=None, loaded=None):
+    """independent interpreter of the exported quadruples; words: values of the other 32-bit words of seccomp_data
+    (instruction pointer, arguments) by offset, 0 when absent; loaded: set that receives the offsets of such words read"""
     A, pc, steps = 0, 0, 0
     while pc < len(f) and steps <= len(f):
         steps += 1
@@ -39,7 +40,9 @@ def bpf_run(f, arch, nr):
             elif k == 4:
                 A = arch
             elif k < 64 and k % 4 == 0:
-                A = 0
+                A = (words or {}).get(k, 0)
+                if loaded is not None:
+                    loaded.add(k)
             else:
                 return None
             pc += 1
@@ -86,6 +89,23 @@ def oracle(filt, allow_nums, trace_nums, default_ret, allnums):
             want = spec(aset, tset, default_ret, arch, nr)
             if got != want:
                 return {"arch": arch, "nr": nr, "filter_returns": got, "policy_says": want}
+    # a policy never speaks about instruction pointer or argument words: where the filter reads one, no value of it may
+    # change the verdict (tried: every constant of the program and its neighbours, in each word the filter reads there)
+    ks = set()
+    for x in filt:
+        ks.update((x[3], (x[3] + 1) & 0xffffffff, (x[3] - 1) & 0xffffffff))
+    for arch in (NATIVE, NATIVE + 1):
+        for nr in sorted(nrs):
+            loaded = set()
+            bpf_run(filt, arch, nr, loaded=loaded)
+            if not loaded:
+                continue
+            want = spec(aset, tset, default_ret, arch, nr)
+            for off in sorted(loaded):
+                for k in sorted(ks):
+                    got = bpf_run(filt, arch, nr, words={off: k})
+                    if got != want:
+                        return {"arch": arch, "nr": nr, "word_at_offset": off, "word_value": k, "filter_returns": got, "policy_says": want}
     return None
 
 
